@@ -230,7 +230,14 @@ pub fn read_v6_bundle<R: Read>(
     consensus_branch_id: BranchId,
     pool: ValuePool,
 ) -> io::Result<Option<orchard::Bundle<Authorized, ZatBalance>>> {
-    read_bundle(reader, bundle_version_for_branch(consensus_branch_id, pool))
+    let bundle_version = bundle_version_for_branch(consensus_branch_id, pool);
+    let bundle = read_bundle(reader, bundle_version)?;
+    // A non-empty bundle must be one that the v6 format can also write: otherwise the parsed
+    // transaction could not be re-serialised (the writer rejects pre-NU6.3 bundle versions).
+    if let (Some(_), Some(bundle_version)) = (&bundle, bundle_version) {
+        check_v6_bundle_version(bundle_version)?;
+    }
+    Ok(bundle)
 }
 
 pub fn read_value_commitment<R: Read>(mut reader: R) -> io::Result<ValueCommitment> {
